@@ -33,6 +33,9 @@ pub enum Op {
     SupHave(u16, u16),
     /// this many correct deliveries in a row (one barrier each)
     DeliverMany(u8),
+    /// an observer's connection task is not scheduled while this many pieces complete (it is blocked, e.g. in a write
+    /// to a remote that does not read); then it runs again
+    ObsLate(u16, u8),
 }
 
 #[derive(Clone, Debug, Serialize, Deserialize)]
@@ -58,8 +61,9 @@ fn strategy() -> BoxedStrategy<Case> {
         3 => any::<u16>().prop_map(Op::SupUnchoke),
         1 => (any::<u16>(), any::<u16>()).prop_map(|(a, b)| Op::SupHave(a, b)),
         1 => (100u8..200).prop_map(Op::DeliverMany),
+        2 => (any::<u16>(), prop_oneof![3 => 2u8..16, 2 => prop::sample::select(vec![15u8, 16, 17, 18, 30, 31]), 1 => prop::sample::select(vec![32u8, 33, 34, 40, 64])]).prop_map(|(o, k)| Op::ObsLate(o, k)),
     ];
-    (prop_oneof![12 => 2usize..=20, 1 => 130usize..=170], prop_oneof![2 => Just(1usize), 2 => 1usize..=40, 3 => Just(20000usize)], vec(op, 0..60), any::<u64>())
+    (prop_oneof![12 => 2usize..=20, 2 => 130usize..=170], prop_oneof![2 => Just(1usize), 2 => 1usize..=40, 3 => Just(20000usize)], vec(op, 0..60), any::<u64>())
         .prop_map(|(pieces, piece_len, ops, seed)| {
             // many pieces only with tiny pieces
             let piece_len = if pieces > 20 { 1 + piece_len % 4 } else { piece_len };
@@ -92,6 +96,7 @@ pub fn case_from_bytes(data: &[u8]) -> Case {
             19 => Op::ObsDisconnect(r.ix()),
             20 => Op::SupChoke(r.ix()),
             21 | 22 => Op::SupUnchoke(r.ix()),
+            23 if r.bool() => Op::ObsLate(r.ix(), 2 + r.u8() % 40),
             _ => Op::SupHave(r.ix(), r.ix()),
         };
         ops.push(op);
@@ -110,6 +115,8 @@ struct Obs {
     chokes: bool,
     ever_choked_during_completion: bool,
     handshake_sent: bool,
+    /// most completions that happened while this observer's task was not scheduled
+    max_lag: usize,
 }
 
 pub fn check(c: &Case) -> Outcome {
@@ -207,12 +214,38 @@ pub fn check(c: &Case) -> Outcome {
                             classes.push(">=100-completions-while-an-observer-chokes");
                         }
                     }
+                    Op::ObsLate(oi, k) => {
+                        let cands: Vec<usize> = (0..observers.len()).filter(|i| observers[*i].init_at.is_some() && net.alive(w, observers[*i].p)).collect();
+                        if !cands.is_empty() {
+                            let oi = cands[idx(*oi, cands.len())];
+                            let conn = net.peers[observers[oi].p].conn;
+                            w.frozen.insert(conn);
+                            let mut done = 0usize;
+                            for _ in 0..*k {
+                                let sup: Vec<usize> = suppliers.iter().copied().filter(|p| net.alive(w, *p) && !net.peers[*p].view.outstanding.is_empty()).collect();
+                                if sup.is_empty() || w.fatal().is_some() {
+                                    break;
+                                }
+                                net.answer(w, sup[0], 0);
+                                net.observe(w).await;
+                                done += 1;
+                            }
+                            w.frozen.remove(&conn);
+                            observers[oi].max_lag = observers[oi].max_lag.max(done);
+                            if done >= 2 {
+                                classes.push("completions-while-an-observer-task-is-not-scheduled");
+                            }
+                            if done > 16 {
+                                classes.push(">16-completions-while-an-observer-task-is-not-scheduled");
+                            }
+                        }
+                    }
                     Op::DeliverCorrupt(s) => deliver(&mut net, w, *s, true, &mut classes),
                     Op::ObserverJoin { outgoing, with_delivery } => {
                         if observers.len() < 3 {
                             let p = net.connect(w, *outgoing);
                             net.handshake(w, p);
-                            observers.push(Obs { p, init_at: None, bitfield_checked: false, haves: vec![], log_seen: 0, chokes: true, ever_choked_during_completion: false, handshake_sent: true });
+                            observers.push(Obs { p, init_at: None, bitfield_checked: false, haves: vec![], log_seen: 0, chokes: true, ever_choked_during_completion: false, handshake_sent: true, max_lag: 0 });
                             if *with_delivery {
                                 deliver(&mut net, w, 0, false, &mut classes);
                                 classes.push("handshake-and-delivery-in-same-barrier");
@@ -222,7 +255,7 @@ pub fn check(c: &Case) -> Outcome {
                     Op::ObserverJoinSilent => {
                         if observers.len() < 3 {
                             let p = net.connect(w, true);
-                            observers.push(Obs { p, init_at: None, bitfield_checked: false, haves: vec![], log_seen: 0, chokes: true, ever_choked_during_completion: false, handshake_sent: false });
+                            observers.push(Obs { p, init_at: None, bitfield_checked: false, haves: vec![], log_seen: 0, chokes: true, ever_choked_during_completion: false, handshake_sent: false, max_lag: 0 });
                             classes.push("outgoing-observer-handshakes-late");
                         }
                     }
@@ -370,14 +403,28 @@ pub fn check(c: &Case) -> Outcome {
                         let expect: Vec<u32> = a_seq.iter().filter(|(p, _)| *p > pos).map(|(_, i)| *i as u32).collect();
                         let expect_set: BTreeSet<u32> = expect.iter().copied().collect();
                         let got: Vec<u32> = ob.haves.iter().copied().filter(|i| expect_set.contains(i)).collect();
-                        if got.len() > expect.len() || got[..] != expect[..got.len()] {
+                        // is `got` what remains of `expect` after dropping some announcements (order kept)?
+                        let subsequence = {
+                            let mut it = expect.iter();
+                            got.iter().all(|g| it.any(|e| e == g))
+                        };
+                        let gap = got.len() <= expect.len() && got[..] != expect[..got.len()];
+                        let short = !ob.chokes && net.alive(w, ob.p) && got.len() < expect.len();
+                        if ob.max_lag > 31 && subsequence && (gap || short) {
+                            // known finding: the task's broadcast receiver holds 32 commands; a task that falls further
+                            // behind loses the oldest ones
+                            fails.push((
+                                "have-announcement-lost-by-a-task-that-lagged-more-than-31-broadcasts".into(),
+                                format!("{}: {} was not scheduled while {} pieces completed and received only {} of the {} announcements due: {:?} of {:?}", what, rp.addr, ob.max_lag, got.len(), expect.len(), got, expect),
+                            ));
+                        } else if got.len() > expect.len() || got[..] != expect[..got.len()] {
                             fails.push((
                                 "have-announcements-out-of-completion-order".into(),
                                 format!("{}: {} received Haves {:?}; completions after its handshake, in order: {:?}", what, rp.addr, got, expect),
                             ));
                         } else if !ob.chokes && net.alive(w, ob.p) && got.len() != expect.len() {
                             fails.push((
-                                "have-announcement-missing-after-unchoke".into(),
+                                if ob.max_lag > 31 { "have-announcement-lost-by-a-task-that-lagged-more-than-31-broadcasts".into() } else { "have-announcement-missing-after-unchoke".to_string() },
                                 format!("{}: {} is not choking the client but received only {:?} of the completions {:?}", what, rp.addr, got, expect),
                             ));
                         }
@@ -416,7 +463,7 @@ pub fn check(c: &Case) -> Outcome {
 pub fn def() -> PropDef {
     PropDef {
         id: "C11",
-        rule: "(in a quarter of the cases damaged piece files of an earlier run - right name and length, zeroed tail - lie in the download directory: a restart) one or two supplier peers deliver single-block pieces (2-20 pieces of 1-40 bytes, or 20000-byte two-block pieces) at generated points of a global schedule of up to 60 ops, some deliveries corrupt, suppliers may choke the client in the middle of a piece and unchoke it later; up to three observer connections (incoming or outgoing; outgoing ones may send their own handshake much later than the client's) handshake at generated points - also in the same barrier as a delivery - and choke / unchoke the client at generated points; at the end every observer unchokes. The harness knows A(t), the completion order the manager has handled (every command passes through the stepper), and D(t), the pieces verified on disk. Oracle: an observer's bitfield satisfies A(at its Init) <= bits <= D, spare bits zero; every Have(i) has i in D at the barrier it is read; for each observer the Haves for pieces completed after its Init arrive exactly in completion order, and whenever the observer is not choking the client none is missing. Non-trivial = an observer handshake after at least one and before the last completion, and a completion while that observer chokes the client; distinct by hash of the case.",
+        rule: "(op ObsLate: an observer's task is not scheduled while 2-64 pieces complete; a loss after a lag of more than 31 broadcasts is the known finding, a loss after a smaller lag a violation) (in a quarter of the cases damaged piece files of an earlier run - right name and length, zeroed tail - lie in the download directory: a restart) one or two supplier peers deliver single-block pieces (2-20 pieces of 1-40 bytes, or 20000-byte two-block pieces) at generated points of a global schedule of up to 60 ops, some deliveries corrupt, suppliers may choke the client in the middle of a piece and unchoke it later; up to three observer connections (incoming or outgoing; outgoing ones may send their own handshake much later than the client's) handshake at generated points - also in the same barrier as a delivery - and choke / unchoke the client at generated points; at the end every observer unchokes. The harness knows A(t), the completion order the manager has handled (every command passes through the stepper), and D(t), the pieces verified on disk. Oracle: an observer's bitfield satisfies A(at its Init) <= bits <= D, spare bits zero; every Have(i) has i in D at the barrier it is read; for each observer the Haves for pieces completed after its Init arrive exactly in completion order, and whenever the observer is not choking the client none is missing. Non-trivial = an observer handshake after at least one and before the last completion, and a completion while that observer chokes the client; distinct by hash of the case.",
         assumptions: &[
             "fewer than 32 completions happen between two barriers of any connection task (each completion has its own barrier, also in the long runs of 100-200 completions) (the broadcast channel holds 32 commands; lagging receivers are a capacity question the property does not speak about)",
             "D is sampled at barriers; a bitfield is compared with D at the end of the barrier in which it was read (D is monotone)",
@@ -426,7 +473,7 @@ pub fn def() -> PropDef {
             cases: |t| t.pick(12_000, 150_000),
             run: |ctx| run_proptest(ctx, "announcements", strategy(), check),
             replay: |v| replay_case::<Case>(v, check),
-            min_class: &[("observer-handshake-between-completions", 0.3), ("completion-while-observer-chokes", 0.3), ("observer-bitfield-checked", 0.4288), ("handshake-and-delivery-in-same-barrier", 0.2), ("corrupt-completion", 0.2), ("outgoing-observer-handshakes-late", 0.1), ("supplier-chokes-mid-piece", 0.1), (">=100-completions-while-an-observer-chokes", 0.003), ("damaged-leftover-piece-files", 0.1)],
+            min_class: &[("observer-handshake-between-completions", 0.3), ("completion-while-observer-chokes", 0.3), ("observer-bitfield-checked", 0.4288), ("handshake-and-delivery-in-same-barrier", 0.2), ("corrupt-completion", 0.2), ("outgoing-observer-handshakes-late", 0.1), ("supplier-chokes-mid-piece", 0.1), (">=100-completions-while-an-observer-chokes", 0.003), ("damaged-leftover-piece-files", 0.1), ("completions-while-an-observer-task-is-not-scheduled", 0.08), (">16-completions-while-an-observer-task-is-not-scheduled", 0.008)],
         }],
     }
 }
